@@ -47,17 +47,22 @@ type mAttr struct {
 	permEmail, exclEmail []string
 	permURI, exclURI     []string
 	permIP, exclIP       []string // CIDR
+	// ncRawLayout > 0: a CRITICAL name-constraints extension supplied through ExtraExtensions that contains a name form
+	// the library cannot evaluate (directoryName) next to a dNSName that permits the leaf: 1 = permitted{dirName, dns},
+	// 2 = permitted{dns, dirName}, 3 = permitted{dirName} excluded{dns other.test}, 4 = permitted{dns} excluded{dirName}.
+	// A verifier that cannot process a critical constraint must reject the chain (RFC 5280 4.2.1.10 / 6.1).
+	ncRawLayout int
 }
 
 func (a *mAttr) wide() bool {
-	return a.ekuUnknown || len(a.emails)+len(a.uris)+len(a.ips)+len(a.permEmail)+len(a.exclEmail)+len(a.permURI)+len(a.exclURI)+len(a.permIP)+len(a.exclIP) > 0
+	return a.ncRawLayout > 0 || a.ekuUnknown || len(a.emails)+len(a.uris)+len(a.ips)+len(a.permEmail)+len(a.exclEmail)+len(a.permURI)+len(a.exclURI)+len(a.permIP)+len(a.exclIP) > 0
 }
 
 func (a *mAttr) id() string {
 	s := fmt.Sprintf("%s|%s|%s|%s|%s|%d|%d|%d|%d|%d|%v|%v|%v|%v", a.name, a.key.name, a.issuerName, a.signer.name, a.akiOf.name,
 		a.caMode, a.ku, a.nb.Unix(), a.na.Unix(), a.pathlen, a.permitted, a.excluded, a.dns, a.eku)
 	if a.wide() {
-		s += fmt.Sprintf("|W|%v|%q|%q|%q|%q|%q|%q|%q|%q|%q", a.ekuUnknown, a.emails, a.uris, a.ips, a.permEmail, a.exclEmail, a.permURI, a.exclURI, a.permIP, a.exclIP)
+		s += fmt.Sprintf("|W|%v|%q|%q|%q|%q|%q|%q|%q|%q|%q|nc%d", a.ekuUnknown, a.emails, a.uris, a.ips, a.permEmail, a.exclEmail, a.permURI, a.exclURI, a.permIP, a.exclIP, a.ncRawLayout)
 	}
 	return s
 }
@@ -99,6 +104,9 @@ func instantiate(a mAttr) (*mCert, error) {
 		SubjectKeyId:        a.key.ski1(),
 		PermittedDNSDomains: a.permitted,
 		ExcludedDNSDomains:  a.excluded,
+	}
+	if a.ncRawLayout > 0 {
+		tpl.ExtraExtensions = append(tpl.ExtraExtensions, pkix.Extension{Id: asn1.ObjectIdentifier{2, 5, 29, 30}, Critical: true, Value: rawNameConstraints(a.ncRawLayout)})
 	}
 	if a.wide() {
 		if a.ekuUnknown {
@@ -346,6 +354,8 @@ func (d deviation) field() string {
 		return "dns"
 	case "named-like-issuer":
 		return "name"
+	case "nc-critical-unsupported-form-1", "nc-critical-unsupported-form-2", "nc-critical-unsupported-form-3", "nc-critical-unsupported-form-4":
+		return "permitted"
 	case "twin-root-added", "twin-root-replaces":
 		return "twinroot"
 	}
@@ -379,6 +389,9 @@ func listDeviations(n int) []deviation {
 	// subject DN byte-identical to the issuer's DN with another key (a "self-issued" certificate, as in key rollover):
 	// self-issued is not self-signed, the issuer's CA flag and key usage still count
 	add("named-like-issuer", 0, n)
+	for l := 1; l <= 4; l++ {
+		add(fmt.Sprintf("nc-critical-unsupported-form-%d", l), 1, n+1)
+	}
 	r = append(r, deviation{"other-root", -1}, deviation{"twin-root-added", -1}, deviation{"twin-root-replaces", -1})
 	add("cross-signed", 1, n)
 	// the root's subject and key once more as a certificate issued by a CA that is in no pool (unless other-root adds
@@ -433,6 +446,8 @@ func (p *pkiSpec) apply(d deviation) {
 		p.chain[d.pos].dns = []string{"ca.example.com"}
 	case "leaf-no-san":
 		p.chain[d.pos].dns = nil
+	case "nc-critical-unsupported-form-1", "nc-critical-unsupported-form-2", "nc-critical-unsupported-form-3", "nc-critical-unsupported-form-4":
+		p.chain[d.pos].ncRawLayout = int(d.kind[len(d.kind)-1] - '0')
 	case "named-like-issuer":
 		// applied after the other attribute deviations of this position; every certificate below keeps naming its issuer
 		old := p.chain[d.pos].name
@@ -757,6 +772,9 @@ func (p *pki) judge(chain []*mCert, at time.Time) (string, string) {
 				return "link-signature-invalid", fmt.Sprintf("independent verification of %s under the key of %s fails", c.name, par.name)
 			}
 		}
+		if i >= 1 && c.ncRawLayout > 0 {
+			return "critical-name-constraint-not-processed", fmt.Sprintf("%s (position %d) carries a critical name-constraints extension with a directoryName subtree (layout %d) that the library cannot evaluate", c.name, i, c.ncRawLayout)
+		}
 		if i >= 1 {
 			if c.caMode != 1 {
 				return "issuer-not-ca", fmt.Sprintf("%s (position %d) is not a CA (mode %d)", c.name, i, c.caMode)
@@ -982,4 +1000,31 @@ func benign(d deviation) bool {
 		return true
 	}
 	return false
+}
+
+// rawNameConstraints builds the extension value by hand (see mAttr.ncRawLayout).
+func rawNameConstraints(layout int) []byte {
+	tlv := func(tag byte, content ...[]byte) []byte {
+		var body []byte
+		for _, c := range content {
+			body = append(body, c...)
+		}
+		if len(body) >= 128 {
+			return append([]byte{tag, 0x81, byte(len(body))}, body...)
+		}
+		return append([]byte{tag, byte(len(body))}, body...)
+	}
+	// Name: SEQUENCE { SET { SEQUENCE { OID 2.5.4.10, UTF8String "Other Org" } } }
+	name := tlv(0x30, tlv(0x31, tlv(0x30, []byte{0x06, 0x03, 0x55, 0x04, 0x0a}, tlv(0x0c, []byte("Other Org")))))
+	dirName := tlv(0x30, tlv(0xa4, name)) // GeneralSubtree { base directoryName [4] EXPLICIT }
+	dns := func(s string) []byte { return tlv(0x30, tlv(0x82, []byte(s))) }
+	switch layout {
+	case 1:
+		return tlv(0x30, tlv(0xa0, dirName, dns("example.com")))
+	case 2:
+		return tlv(0x30, tlv(0xa0, dns("example.com"), dirName))
+	case 3:
+		return tlv(0x30, tlv(0xa0, dirName), tlv(0xa1, dns("other.test")))
+	}
+	return tlv(0x30, tlv(0xa0, dns("example.com")), tlv(0xa1, dirName))
 }
